@@ -209,42 +209,88 @@ def check(ctx: Ctx) -> list[RuleResult]:
     out.append(r3)
 
     # ---- R4 ---------------------------------------------------------------------------
-    r4 = RuleResult("R4", "ratio guards", "every x/200 ratio is bounded at 1.0 on every path, with no admitted exception", min_instances=5)
+    # Interval reasoning, not text: a quotient raw/D with D in {100, 200} (possibly chosen by a flag) is a ratio; it must be bounded
+    # at 1.0 on the way to being returned - by a raising guard/assert on the quotient itself (<= 1.0), or on the raw value with a
+    # bound G <= min(D). A bound that only fits the larger divisor (G = 200 with D possibly 100) admits ratios up to 2.0.
+    r4 = RuleResult("R4", "ratio guards", "every raw/100|200 ratio is bounded at 1.0 on every path, with no admitted exception", min_instances=5)
+
+    def divisors(e: ast.expr) -> "set[int] | None":
+        if isinstance(e, ast.Constant) and isinstance(e.value, int) and e.value in (100, 200):
+            return {e.value}
+        if isinstance(e, ast.IfExp):
+            a, b = divisors(e.body), divisors(e.orelse)
+            return a | b if a and b else None
+        return None
+
+    def strip_float(e: ast.expr) -> ast.expr:
+        while isinstance(e, ast.Call) and norm(e.func) in ("float", "int") and len(e.args) == 1 and norm(e.func) == "float":
+            e = e.args[0]
+        return e
+
     for f in [g for g in repo.funcs.values() if g.module.name in (PM, "ramses_tx.helpers")]:
         for n in own_nodes(f.node):
-            if isinstance(n, ast.BinOp) and isinstance(n.op, ast.Div) and (norm(n.right) in ("200", "(200 if high_res else 100)", "200 if high_res else 100")) and "int(" in norm(n.left) + "float(":
-                r4.instances += 1
-                r4.nontrivial += 1
-                par = getattr(n, "parent", None)
-                var = norm(par.targets[0]) if isinstance(par, ast.Assign) else None
-                src = norm(n.left)
-                guards = []
-                weak = []
-                scope = f.node
-                for g in ast.walk(scope):
-                    tests = []
-                    if isinstance(g, ast.Assert):
-                        tests.append((g.test, "assert"))
-                    elif isinstance(g, ast.If) and g.body and isinstance(g.body[0], (ast.Raise, ast.Return)):
-                        tests.append((g.test, "if"))
-                    for t, kind in tests:
-                        txt = norm(t)
-                        if kind == "assert":
-                            if var and txt in (f"{var} <= 1.0", f"{var} <= 1"):
-                                guards.append(txt)
-                            elif txt.startswith(f"{src} <= 200"):
-                                (guards if txt == f"{src} <= 200" else weak).append(txt)
-                            elif src.replace("float(", "").rstrip(")") and "<= 200" in txt and " or " in txt:
-                                weak.append(txt)
-                        else:
-                            if var and txt in (f"{var} > 1.0", f"{var} > 1"):
-                                guards.append(txt)
-                if guards:
-                    r4.ok({"site": f"{f.short}: {norm(n)}", "guard": guards[0]})
-                elif weak:
-                    r4.fail(f"{f.short}:{norm(n)}:weak-guard", f.loc(n), f"the ratio `{norm(n)}` in {f.short} is guarded by `{weak[0]}`, which admits a value above 200 (a ratio > 1.0)")
+            if not (isinstance(n, ast.BinOp) and isinstance(n.op, ast.Div)):
+                continue
+            ds = divisors(n.right)
+            raw = strip_float(n.left)
+            if not ds or not (("int(" in norm(raw)) or isinstance(raw, ast.Name)):
+                continue
+            # a ratio is one octet over 100/200; a 4-hex value over 100 is a scaled quantity (flow, temperature), not a ratio
+            hexarg = None
+            for x in ast.walk(raw if not isinstance(raw, ast.Name) else f.node):
+                if isinstance(x, ast.Call) and norm(x.func) == "int" and len(x.args) == 2 and norm(x.args[1]) == "16":
+                    if isinstance(raw, ast.Name):
+                        par2 = getattr(x, "parent", None)
+                        bound = (isinstance(par2, ast.NamedExpr) and par2.target.id == raw.id) or (isinstance(par2, ast.Assign) and any(isinstance(t, ast.Name) and t.id == raw.id for t in par2.targets))
+                        if not bound:
+                            continue
+                    hexarg = x.args[0]
+                    break
+            if hexarg is None or not _is_octet(f, hexarg):
+                continue
+            if isinstance(raw, ast.Name):
+                # the name must be bound from int(<hex>, 16) (assignment or walrus) in this function
+                if not any((isinstance(x, ast.NamedExpr) and x.target.id == raw.id and "int(" in norm(x.value)) or (isinstance(x, ast.Assign) and any(isinstance(t, ast.Name) and t.id == raw.id for t in x.targets) and "int(" in norm(x.value)) for x in ast.walk(f.node)):
+                    continue
+            r4.instances += 1
+            r4.nontrivial += 1
+            par = getattr(n, "parent", None)
+            var = norm(par.targets[0]) if isinstance(par, ast.Assign) and len(par.targets) == 1 else None
+            src = norm(raw)
+            ok_guard = None
+            weak = None
+            for g in ast.walk(f.node):
+                # what holds after the statement: an assert's test; the negation of an `if <t>: raise/return`
+                if isinstance(g, ast.Assert):
+                    atoms, disj = _implied_atoms(g.test, True), (isinstance(g.test, ast.BoolOp) and isinstance(g.test.op, ast.Or))
+                elif isinstance(g, ast.If) and g.body and (isinstance(g.body[-1], ast.Raise) or (isinstance(g.body[-1], ast.Return) and g.body[-1].value is not None and (not var or var not in {x.id for x in ast.walk(g.body[-1].value) if isinstance(x, ast.Name)}))):
+                    atoms, disj = _implied_atoms(g.test, False), False
                 else:
-                    r4.fail(f"{f.short}:{norm(n)}:unguarded", f.loc(n), f"the ratio `{norm(n)}` in {f.short} has no guard for values > 1.0")
+                    continue
+                cands = atoms if atoms else ([(x, True) for x in g.test.values] if disj else [])  # type: ignore[union-attr]
+                for a, holds in cands:
+                    b = _upper_bound(a, holds)
+                    if b is None:
+                        continue
+                    subj, bound = b
+                    if var and subj == var and bound <= 1.0:
+                        if disj and not atoms:
+                            weak = weak or norm(g.test)
+                        else:
+                            ok_guard = ok_guard or f"{subj} <= {bound}"
+                    elif subj == src:
+                        if disj and not atoms:
+                            weak = weak or norm(g.test)
+                        elif bound <= min(ds):
+                            ok_guard = ok_guard or f"{subj} <= {bound} (divisor >= {min(ds)})"
+                        else:
+                            weak = weak or f"{norm(g.test) if isinstance(g, ast.Assert) else 'not (' + norm(g.test) + ')'}: bounds the raw value at {bound:g} but the divisor may be {min(ds)}"
+            if ok_guard:
+                r4.ok({"site": f"{f.short}: {norm(n)}", "guard": ok_guard})
+            elif weak:
+                r4.fail(f"{f.short}:{norm(n)}:weak-guard", f.loc(n), f"the ratio `{norm(n)}` in {f.short} is guarded by `{weak}`, which admits a ratio > 1.0")
+            else:
+                r4.fail(f"{f.short}:{norm(n)}:unguarded", f.loc(n), f"the ratio `{norm(n)}` in {f.short} has no guard for values > 1.0")
     out.append(r4)
 
     # ---- R5 ---------------------------------------------------------------------------
@@ -262,3 +308,60 @@ def check(ctx: Ctx) -> list[RuleResult]:
     r5.samples = [{"schema_codes": len(schema), "registered_parsers": len(have)}]
     out.append(r5)
     return out
+
+
+def _implied_atoms(t: ast.expr, edge: bool) -> "list[tuple[ast.expr, bool]]":
+    if isinstance(t, ast.UnaryOp) and isinstance(t.op, ast.Not):
+        return _implied_atoms(t.operand, not edge)
+    if isinstance(t, ast.BoolOp):
+        if (isinstance(t.op, ast.And) and edge) or (isinstance(t.op, ast.Or) and not edge):
+            return [x for v in t.values for x in _implied_atoms(v, edge)]
+        return []
+    return [(t, edge)]
+
+
+def _upper_bound(a: ast.expr, holds: bool) -> "tuple[str, float] | None":
+    """(subject text, upper bound) established by a comparison atom that is known to be `holds`."""
+    if not (isinstance(a, ast.Compare) and len(a.ops) == 1):
+        return None
+    l, r, op = a.left, a.comparators[0], a.ops[0]
+    def num(e: ast.expr) -> "float | None":
+        return float(e.value) if isinstance(e, ast.Constant) and isinstance(e.value, (int, float)) and not isinstance(e.value, bool) else None
+    k = num(r)
+    if k is not None:
+        subj = norm(l)
+        if holds and isinstance(op, (ast.LtE, ast.Lt)):
+            return subj, k
+        if not holds and isinstance(op, (ast.Gt, ast.GtE)):
+            return subj, k
+    k = num(l)
+    if k is not None:
+        subj = norm(r)
+        if holds and isinstance(op, (ast.GtE, ast.Gt)):
+            return subj, k
+        if not holds and isinstance(op, (ast.Lt, ast.LtE)):
+            return subj, k
+    return None
+
+
+def _is_octet(f, e: ast.expr) -> bool:
+    """A 2-hex-character operand: a slice of width 2, or a parameter annotated HexStr2 / length-checked `len(x) != 2`."""
+    if isinstance(e, ast.Subscript) and isinstance(e.slice, ast.Slice):
+        lo = 0 if e.slice.lower is None else getattr(e.slice.lower, "value", None)
+        hi = getattr(e.slice.upper, "value", None)
+        return isinstance(lo, int) and isinstance(hi, int) and hi - lo == 2
+    if isinstance(e, ast.Name):
+        for a in f.node.args.posonlyargs + f.node.args.args + f.node.args.kwonlyargs:
+            if a.arg == e.id and a.annotation is not None and "HexStr2" in norm(a.annotation):
+                return True
+        for n in ast.walk(f.node):
+            if isinstance(n, ast.Compare) and norm(n.left) == f"len({e.id})" and len(n.ops) == 1 and isinstance(n.ops[0], ast.NotEq) and norm(n.comparators[0]) == "2":
+                return True
+        # a closure parameter fed with 2-wide slices by its enclosing function
+        if f.parent is not None:
+            calls = [c for c in ast.walk(f.parent.node) if isinstance(c, ast.Call) and isinstance(c.func, ast.Name) and c.func.id == f.name and c.args]
+            params = [a.arg for a in f.node.args.args]
+            if e.id in params and calls:
+                i = params.index(e.id)
+                return all(len(c.args) > i and _is_octet(f.parent, c.args[i]) for c in calls)
+    return False
